@@ -141,6 +141,17 @@ pub struct ProgCfg {
     pub empties: bool,
 }
 
+impl ProgCfg {
+    /// the thorough tier explores larger programs over more landmarks
+    pub fn scaled(mut self, thorough: bool) -> ProgCfg {
+        if thorough && !self.tiny_alphabet {
+            self.max_ins += 4;
+            self.max_landmarks = 8;
+        }
+        self
+    }
+}
+
 impl Default for ProgCfg {
     fn default() -> Self {
         ProgCfg { max_landmarks: 6, max_ins: 12, small_bound: 4, big_p: 0, big_bound: 150, tiny_alphabet: false, empties: false }
@@ -207,6 +218,21 @@ impl Prog {
         };
         let big = cfg.big_p > 0 && t.bool_p(cfg.big_p);
         let mut ins: Vec<Ins> = Vec::new();
+        // a quarter of the programs start with a class-rich term: the union of 2-4 ranges / characters
+        // (several derivative classes, several automaton ranges per state)
+        if !cfg.tiny_alphabet && cfg.max_ins >= 6 && t.bool_p(64) {
+            let k = 2 + t.choose(3);
+            for _ in 0..k {
+                let leaf = if t.flag() {
+                    let (a, b) = atoms.pick_range(t);
+                    Ins::Range(a, b)
+                } else {
+                    Ins::Char(atoms.pick_landmark(t))
+                };
+                ins.push(leaf);
+            }
+            ins.push(Ins::UnionList((0..k).collect()));
+        }
         loop {
             let n = ins.len();
             if n >= cfg.max_ins || (n >= 1 && t.exhausted()) {
@@ -230,7 +256,7 @@ impl Prog {
                 Ins::CharSet(a, b)
             }
             3 => {
-                let len = t.choose(4);
+                let len = t.choose(5);
                 Ins::Str((0..len).map(|_| atoms.pick_landmark(t)).collect())
             }
             4 => Ins::AllChars,
